@@ -922,8 +922,8 @@ class GraphPattern:
         }
 
         def commute_node(node: NodePattern) -> Iterable[bool]:
-            if node.op_identifier() in COMMUTATIVE_OPS:
-                # Try with and without swapping inputs.
+            if node.op_identifier() in COMMUTATIVE_OPS and len(node.inputs) == 2:
+                # Try with and without swapping inputs (binary uses only).
                 return [False, True]
             # No swapping of inputs
             return [False]
